@@ -56,9 +56,51 @@ func guard(c *fw.Ctx, key, what string, fn func()) {
 	fn()
 }
 
+// boardWithTakeBacks sets the game up like boardOf, but tries other moves (castling first) and takes them back
+// on the way: the board then holds the same game, reached the way a user or a search on the board reaches it.
+func boardWithTakeBacks(c *fw.Ctx, r *rand.Rand, h gen.Hist) (*board.Board, bool) {
+	b, err := adapt.Board(zt0, h.Start)
+	if err != nil {
+		return nil, false
+	}
+	g := ref.NewGame(h.Start)
+	try := func() {
+		ms := g.Cur.LegalMoves()
+		if len(ms) == 0 {
+			return
+		}
+		m := ms[r.Intn(len(ms))]
+		for _, x := range ms {
+			if (x.Kind == ref.KCastleK || x.Kind == ref.KCastleQ) && r.Intn(4) != 0 {
+				m = x
+				c.Count("castle_takebacks", 1)
+				break
+			}
+		}
+		if adapt.Push(b, m) {
+			b.PopMove()
+			c.Count("takebacks_on_the_way", 1)
+		}
+	}
+	for _, m := range h.Moves {
+		if r.Intn(3) == 0 {
+			try()
+		}
+		if !adapt.Push(b, m) {
+			return nil, false
+		}
+		g.Push(m)
+	}
+	try()
+	return b, true
+}
+
 func c20Position(c *fw.Ctx, r *rand.Rand, h gen.Hist) {
 	ctx := context.Background()
 	b, ok := boardOf(h)
+	if r.Intn(3) == 0 {
+		b, ok = boardWithTakeBacks(c, r, h)
+	}
 	if !ok {
 		return
 	}
@@ -248,7 +290,7 @@ func init() {
 		ID:          "C20",
 		Level:       "exploration",
 		Technique:   "runtime oracle over generated positions with short histories: finiteness and colour-mirror symmetry of evaluations, move filters vs the independent legal-move set, book replies vs the legal-move set over the enumerated opening tree",
-		Rule:        "positions with histories (playouts from curated and synthetic starts, tactical shapes, sparse endings) x branch limits {1,3,7,0} x material factors {0,1,20,1000,-1}: evaluations finite; Material/TUROCHAMP/BERNSTEIN equal on the colour-mirrored game; plausible-move / no-under-promotion / considerable-move filters vs the oracle's legal set; books: every position of the game tree to depth 3 from the initial position (9323 positions) looked up in the SARGON, BERNSTEIN and generated line books; distinct = distinct (position, history length) + distinct book hits",
+		Rule:        "positions with histories (playouts from curated and synthetic starts, tactical shapes, sparse endings) x branch limits {1,3,7,0} x material factors {0,1,20,1000,-1}: evaluations finite; Material/TUROCHAMP/BERNSTEIN equal on the colour-mirrored game (a third of the games set up with moves tried and taken back on the way, castling first); plausible-move / no-under-promotion / considerable-move filters vs the oracle's legal set; books: every position of the game tree to depth 3 from the initial position (9323 positions) looked up in the SARGON, BERNSTEIN and generated line books; distinct = distinct (position, history length) + distinct book hits",
 		Assumptions: []string{"reference rules implementation (package ref)", "SARGON's evaluation is anchored to the root side by design: only totality is checked for it"},
 		Setup:       validateOracle,
 		Timeout:     minutes(10, 60),
@@ -259,7 +301,7 @@ func init() {
 			return l
 		},
 		Floors: func(string) map[string]int64 {
-			return map[string]int64{"positions": 2000, "mirror_checks": 8000, "plausible_checks": 8000, "book_lookups": 9000, "book_hits": 20, "considerable_selected": 500, "boxed_king_positions": 300, "castled_histories": 100, "book_variant_lookups": 200}
+			return map[string]int64{"positions": 2000, "mirror_checks": 8000, "plausible_checks": 8000, "book_lookups": 9000, "book_hits": 20, "considerable_selected": 500, "boxed_king_positions": 300, "castled_histories": 100, "takebacks_on_the_way": 300, "castle_takebacks": 10, "book_variant_lookups": 200}
 		},
 		Run: func(c *fw.Ctx, cs fw.Case) {
 			r := cs.Rand()
